@@ -32,6 +32,8 @@ def slotify_columns(st):
             e.name = slot(e.name)
         elif isinstance(e, gen.Func):
             [ex(a) for a in e.args]
+            if e.tail is not None:
+                ex(e.tail[1])
         elif isinstance(e, gen.Case):
             for c, r in e.whens:
                 ex(c), ex(r)
